@@ -9,7 +9,7 @@ from ..cfg import ENTRY, EXIT
 from ..core import AnalysisError, FuncInfo, Report, call_name, dotted, unparse
 from ..ctx import Ctx
 from .sqlutil import sql_of, stmt_kind, table_of
-from .util import actual, calls_in, enclosing, kw
+from .util import actual, calls_in, cguards, enclosing, kw
 
 EXPLANATION = (
     "Structure that makes ingestion idempotent, decided on the source: "
@@ -305,13 +305,59 @@ def check(rep: Report, ctx: Ctx) -> None:
         rep.ob("R10.7", f"{fn.short}: link = (parent_event_id, event_id)", ok,
                fi=fn, node=dicts[0] if dicts else fn.node,
                detail=unparse(dicts[0])[:100] if dicts else "<missing>")
-        guards = enclosing(fn.node, dicts[0], (ast.If,)) if dicts else []
-        g = unparse(guards[-1].test) if guards else ""
-        okg = len(guards) == 1 and (g.endswith(".parent_event_id")
-                                    or g.endswith(".parent_event_id is not None"))
+        gs = cguards(ctx, fn, dicts[0]) if dicts else []
+        subj = f"{fn.params()[1]}.parent_event_id"
+        truthy = ("truth", subj, "1")
+        notnone = ("cmp", subj, "IsNot", "None")
+        okg = gs in ([truthy], [notnone])
         rep.ob("R10.7", f"{fn.short}: only root spans have no link", okg,
-               fi=fn, node=guards[-1] if guards else fn.node,
-               detail=f"guard '{g}'")
+               fi=fn, node=dicts[0] if dicts else fn.node,
+               detail=f"link queued under {[' '.join(g) for g in gs]}")
+        # a link row is queued exactly for the spans stored as non-roots:
+        # the record stores `parent or None` (every falsy parent id, e.g. the
+        # OTLP/JSON "" of a root span, becomes NULL), so a guard on the *raw*
+        # span must be the same truthiness test -- `is not None` would queue
+        # a link ('' -> root) for a span stored as a root, and the cleaning
+        # step would delete that well-formed trace for a missing parent ''.
+        pv = kw(ctor[0], "parent_event_id")
+        normalising = isinstance(pv, ast.BoolOp) and isinstance(pv.op, ast.Or)
+        raw_subject = fn.name == "add_node_relations"
+        if okg and raw_subject:
+            agree = not (normalising and gs == [notnone])
+            rep.ob("R10.7", f"{fn.short}: a link is queued exactly when the "
+                   "stored record has a parent", agree, fi=fn, node=dicts[0],
+                   detail=f"record stores parent_event_id = {unparse(pv)}; "
+                          f"link guard {' '.join(gs[0])}"
+                          + ("" if agree else
+                             " -- a span with an empty-string parent id is "
+                             "stored as a root and still gets a link row "
+                             "to a parent that cannot exist"))
+
+
+def link_root_agreement(rep: Report, ctx: Ctx, rule: str) -> None:
+    """(shared with C11)  The ingestion path queues a parent link for a raw
+    span exactly when the record it stores for that span has a parent."""
+    conv = ctx.func("convert_otel_event_to_node_model")
+    fn = ctx.func("SQLDataHolder.add_node_relations")
+    ctor = [c for c in ast.walk(conv.node) if isinstance(c, ast.Call)
+            and call_name(c) == "NodeModel"]
+    dicts = [d for d in ast.walk(fn.node) if isinstance(d, ast.Dict)]
+    if len(ctor) != 1 or len(dicts) != 1:
+        raise AnalysisError("record / link construction not found")
+    pv = kw(ctor[0], "parent_event_id")
+    normalising = isinstance(pv, ast.BoolOp) and isinstance(pv.op, ast.Or)
+    gs = cguards(ctx, fn, dicts[0])
+    subj = f"{fn.params()[1]}.parent_event_id"
+    agree = not (normalising and gs == [("cmp", subj, "IsNot", "None")])
+    rep.ob(rule, "a link row is queued exactly when the stored record has a "
+           "parent", agree, fi=fn, node=dicts[0],
+           detail=f"record stores parent_event_id = {unparse(pv)}; link "
+                  f"guard {[' '.join(g) for g in gs]}"
+                  + ("" if agree else
+                     " -- a root span exported with an empty-string parent "
+                     "id is stored as a root and still gets a link row; the "
+                     "dangling-parent cleaning then deletes its whole, "
+                     "well-formed trace"))
 
 
 def _handler_names(h: ast.ExceptHandler) -> set[str]:
@@ -450,6 +496,23 @@ def _filter(rep: Report, ctx: Ctx, filt: FuncInfo, raw: FuncInfo) -> None:
                                       and not arg.generators[0].ifs))
     rep.ob("R10.6", "stored ids are looked up for the batch's ids", ok,
            fi=filt, node=ex[0], detail=f"get_event_ids_existing_in_db({atxt})")
+    # ... on every path to the retry: duplicates inside the batch and rows
+    # already stored can occur together (re-ingesting files that repeat a span)
+    fcfg = ctx.cfg(filt)
+    n_lookup = fcfg.container(ex[0])
+    retry = [c for c in ast.walk(filt.node) if isinstance(c, ast.Call)
+             and call_name(c) == "commit_batched_data_to_database"]
+    n_retry = fcfg.container(retry[0]) if retry else None
+    ok = n_lookup is not None and n_retry is not None and \
+        fcfg.dominates(n_lookup, n_retry)
+    rep.ob("R10.6", "the stored-id lookup runs on every path to the retry",
+           ok, fi=filt, node=ex[0],
+           detail=("unconditional" if ok else
+                   "the lookup is skipped on some path (under "
+                   f"{[unparse(t) for t, _ in fcfg.controlling(n_lookup)] if n_lookup is not None else '?'}"
+                   "): a batch that repeats a span AND contains spans already "
+                   "stored is retried with the stored ones still in it -> "
+                   "IntegrityError on re-ingest"))
     q = ctx.func("SQLDataHolder.get_event_ids_existing_in_db")
     it = sql_of(ctx).run(q)
     reads = [x for x in it.execs if x.kind == "read"]
